@@ -169,7 +169,7 @@ pub fn run(tier: Tier) {
     // written values x units
     let qa = Alphabet::new(
         "A_quantity",
-        &["@a{", "#c{", "~t{", "}", "=", "1", "1.5", "1/2", "1 1/2", "2-3", "1/3-2/3", "some", "%", "kg", "cup", "tsp", "min", "bag", " ", "@&a{", "0.001", "1000000"],
+        &["@a{", "#c{", "~t{", "}", "=", "1", "1.5", "1/2", "1 1/2", "2-3", "1/3-2/3", "some", "%", "kg", "cup", "tsp", "min", "bag", " ", "@&a{", "0.001", "1000000", "()", "(n)"],
     );
     c.part(json!({"alphabet": qa.name, "symbols": qa.syms}));
     string_sweep("C15 quantities", &qa, 0, tier.pick(4, 5), ext.clone(), None, check);
